@@ -489,6 +489,22 @@ Proof.
   apply perm_singleton; [apply filter_perm; exact HP|exact Hl].
 Qed.
 
+(** * A10 (finding): the gas table entry depends on what the process has seen *)
+(** a node that ran through [Some 30000; None] and a node started for the last block only *)
+Lemma gas_table_process_dependent :
+  exists (d : N) (history : list (option N)) (last : option N),
+    table_after d (history ++ [last]) <> table_after d [last].
+Proof. exists 10, [Some 30000], None. vm_compute. discriminate. Qed.
+
+(** outside the finding class: while the current on-chain value parses, every process agrees *)
+Lemma gas_table_parsable_agrees d history v : table_after d (history ++ [Some v]) = table_after d [Some v].
+Proof. unfold table_after. rewrite fold_left_app. reflexivity. Qed.
+
+(** the repaired refresh depends on the current on-chain value only *)
+Lemma gas_table_repaired_agrees d history last :
+  table_after_repaired d (history ++ [last]) = table_after_repaired d [last].
+Proof. unfold table_after_repaired. rewrite fold_left_app. destruct last; reflexivity. Qed.
+
 (** * The statement each lemma id stands for, and the proof that all of them hold *)
 Definition lemma_statement (l : lemma_id) : Prop :=
   match l with
